@@ -194,7 +194,7 @@ def model_check(wd, coverage=True, cfg="StableHash.cfg"):
     cov = vp.tlc_coverage(r["out"]) if coverage else {}
     actions = ["Push", "Pop", "Ins", "Upd", "Rem", "Permute", "BIns", "Assign"]
     ev = {"states": r["distinct"], "transitions": r["generated"], "depth": r["depth"],
-          "invariants": ["TypeOK", "HistoryFree", "Discriminating", "PrefixFree"],
+          "invariants": ["TypeOK", "HistoryFree", "Discriminating", "PrefixFree", "LenCode"],
           "actions": {a: cov.get(a, (0, 0))[1] for a in actions} if coverage else {}}
     if coverage:
         dead = [a for a in actions if ev["actions"][a] == 0]
